@@ -6,6 +6,10 @@ HERE = os.path.dirname(os.path.dirname(os.path.abspath(__file__)))
 props = [json.loads(l) for l in open(os.path.join(HERE, "properties.jsonl"))]
 
 CLAIMS = {
+ "C18": dict(
+  technique="custom static checker: abstract execution over a small heap model (blocks as ids, lists as next_ chains, class table as symbolic array) of every cache primitive: class table construction, classification for every size 0..300, reserve/release on every used list of 0..3 blocks x every target incl. foreign pointers, list destruction with use-after-free detection, both clear functions over all 5 classes; path skeletons of alloc/dealloc and teardown",
+  text="Decides the size-class table and that every request is classified to the smallest class >= size through one function, that reserve pops free and pushes used, that release unlinks exactly the addressed block (head or interior) and pushes it on free, that a foreign pointer leaves both lists untouched and warns once, that destroying a list frees every block once and never reads a freed block, that clearCache/clearAll cover every class and reset every head, and that the global cache returns buffers still in use before it goes away. Absence of aliasing over ALL alloc/release histories is not decided (heap shape).",
+  note="Trusted: the underlying allocator returns distinct blocks; folding bounds cover the uniform per-block transitions; clang AST/CFG."),
  "C14": dict(
   technique="custom static checker: inductive-invariant argument for the fixed report buffer (every writer of limit/fill folded to establish the invariant; add() folded with wrap detection over the boundary lattice of limit x fill x vsnprintf result), constant evaluation of the footer reservation against the literal lengths, structural end-of-sequence rule for every first-difference scan with path-verified frozen exceptions, argument-role rules for the difference marker",
   text="Decides that no call of add() can hand vsnprintf a window outside the 4096-byte buffer for any limit/fill the class can reach (including a limit lowered below the fill), that the reserved footer space covers the worst-case footer and the too-many notice is printed iff capacity was reached, that every reported leak is counted, that every scan for the first difference stops at the end of its operands or is only constructed where the operands are known to differ, and that expected/actual, printable forms and raw/printable indices are used in their roles. Exact message text and termination of the rendering helpers are not decided.",
